@@ -76,6 +76,11 @@ Section Spec.
 
   Definition paid (v : version) (reward : Z) : Z := if is_early v then reward else paid_loops v.
 
+  (* everything credited in the round map: paid plus the abnormal-CR credits
+     that the code adds to the destroy address without counting them *)
+  Definition credited (v : version) (reward : Z) : Z :=
+    if is_early v then reward else paid_loops v + extra_total v.
+
   Definition sane (v : version) (reward : Z) : bool :=
     (0 <=? reward) && (reward <=? max_int64) && (is_early v || sane_loops v).
 End Spec.
@@ -138,6 +143,45 @@ Proof.
            exact (IH Hm' k0 y Hin).
 Qed.
 
+(* value found by the traversal of [upd] (0 when the key is absent) *)
+Fixpoint getu (k : Z) (m : list (Z * Z)) : Z :=
+  match m with
+  | [] => 0
+  | (k', v) :: m' => if k =? k' then v else if k <? k' then 0 else getu k m'
+  end.
+
+Lemma sum_upd : forall f k m, sum_map (upd f k m) = sum_map m - getu k m + f (getu k m).
+Proof.
+  intros f k m. induction m as [| [k' v] m IH].
+  - cbn. lia.
+  - cbn [upd getu]. destruct (k =? k'). cbn [sum_map]. lia.
+    destruct (k <? k'). cbn [sum_map]. lia.
+    cbn [sum_map]. rewrite IH. lia.
+Qed.
+
+Lemma getu_bounds : forall k m acc, entries_in m 0 acc -> 0 <= acc -> 0 <= getu k m <= acc.
+Proof.
+  intros k m acc Hm Hacc. induction m as [| [k' v] m IH]. cbn. lia.
+  cbn [getu]. destruct (k =? k'). apply (Hm k' v). left. reflexivity.
+  destruct (k <? k'). lia.
+  apply IH. intros k1 y1 H1. apply (Hm k1 y1). right. exact H1.
+Qed.
+
+Lemma madd_sum : forall k x m acc,
+  entries_in m 0 acc -> 0 <= acc -> 0 <= x -> acc + x <= max_int64 ->
+  sum_map (madd k x m) = sum_map m + x.
+Proof.
+  intros k x m acc Hm Hacc Hx Hb. unfold madd. rewrite sum_upd.
+  pose proof (getu_bounds k m acc Hm Hacc). rewrite add64_exact by lia. lia.
+Qed.
+
+Lemma mset_sum : forall k x m acc,
+  entries_in m 0 acc -> 0 <= acc -> sum_map (mset k x m) <= sum_map m + x.
+Proof.
+  intros k x m acc Hm Hacc. unfold mset. rewrite sum_upd.
+  pose proof (getu_bounds k m acc Hm Hacc). lia.
+Qed.
+
 (* ------------------------------------------------------------------ loops *)
 
 Section Loops.
@@ -184,13 +228,14 @@ Section Loops.
   (* arbiters loop: real and every entry stay exact *)
   Lemma run_arbs_inv : forall v l m real,
     forallb (arb_ok ibcr share s v) l = true ->
-    0 <= real -> entries_in m 0 real ->
+    0 <= real -> entries_in m 0 real -> sum_map m <= real ->
     real + sum_arbs ibcr share s v l <= max_int64 ->
     exists m', run_arbs ibcr share s v l m real = Some (m', real + sum_arbs ibcr share s v l) /\
-               entries_in m' 0 (real + sum_arbs ibcr share s v l).
+               entries_in m' 0 (real + sum_arbs ibcr share s v l) /\
+               sum_map m' <= real + sum_arbs ibcr share s v l.
   Proof.
-    intros v l. induction l as [| a l IH]; intros m real Hok Hreal Hm Hb.
-    - cbn. exists m. split. rewrite Z.add_0_r. reflexivity. rewrite Z.add_0_r. exact Hm.
+    intros v l. induction l as [| a l IH]; intros m real Hok Hreal Hm Hsum Hb.
+    - cbn. exists m. rewrite Z.add_0_r. auto.
     - cbn [forallb] in Hok. apply andb_prop in Hok. destruct Hok as [Ha Hl].
       pose proof (sum_arbs_nonneg v l Hl) as Hnn.
       cbn [sum_arbs] in *. unfold arb_ok in Ha.
@@ -201,20 +246,24 @@ Section Loops.
       rewrite Hadd.
       assert (Hm' : entries_in (if asg then mset k r m else madd k r m) 0 (real + r)).
       { destruct asg. apply mset_entries; (assumption || lia). apply madd_entries; (assumption || lia). }
-      destruct (IH _ (real + r) Hl ltac:(lia) Hm' ltac:(lia)) as (m' & Hrun & Hent).
-      exists m'. rewrite Hrun. split. f_equal. f_equal. lia.
-      intros k0 x Hin. specialize (Hent k0 x Hin). lia.
+      assert (Hs' : sum_map (if asg then mset k r m else madd k r m) <= real + r).
+      { destruct asg. pose proof (mset_sum k r m real Hm Hreal). lia.
+        rewrite (madd_sum k r m real) by (assumption || lia). lia. }
+      destruct (IH _ (real + r) Hl ltac:(lia) Hm' Hs' ltac:(lia)) as (m' & Hrun & Hent & Hsm).
+      exists m'. rewrite Hrun. split. f_equal. f_equal. lia. split.
+      intros k0 x Hin. specialize (Hent k0 x Hin). lia. lia.
   Qed.
 
   Lemma run_cands_inv : forall l m real,
     forallb (fun c => 0 <=? vshare share s c) l = true ->
-    0 <= real -> entries_in m 0 real ->
+    0 <= real -> entries_in m 0 real -> sum_map m <= real ->
     real + sum_cands share s l <= max_int64 ->
     exists m', run_cands share s l m real = (m', real + sum_cands share s l) /\
-               entries_in m' 0 (real + sum_cands share s l).
+               entries_in m' 0 (real + sum_cands share s l) /\
+               sum_map m' <= real + sum_cands share s l.
   Proof.
-    induction l as [| c l IH]; intros m real Hok Hreal Hm Hb.
-    - cbn. exists m. rewrite Z.add_0_r. split. reflexivity. exact Hm.
+    induction l as [| c l IH]; intros m real Hok Hreal Hm Hsum Hb.
+    - cbn. exists m. rewrite Z.add_0_r. auto.
     - cbn [forallb] in Hok. apply andb_prop in Hok. destruct Hok as [Hc Hl]. apply Z.leb_le in Hc.
       pose proof (sum_cands_nonneg l Hl) as Hnn.
       cbn [sum_cands] in *. cbn [run_cands].
@@ -222,27 +271,32 @@ Section Loops.
       rewrite Hadd.
       assert (Hm' : entries_in (mset c (vshare share s c) m) 0 (real + vshare share s c))
         by (apply mset_entries; (assumption || lia)).
-      destruct (IH _ (real + vshare share s c) Hl ltac:(lia) Hm' ltac:(lia)) as (m' & Hrun & Hent).
-      exists m'. rewrite Hrun. split. f_equal. lia.
-      intros k0 x Hin. specialize (Hent k0 x Hin). lia.
+      pose proof (mset_sum c (vshare share s c) m real Hm Hreal) as Hs'.
+      destruct (IH _ (real + vshare share s c) Hl ltac:(lia) Hm' ltac:(lia) ltac:(lia)) as (m' & Hrun & Hent & Hsm).
+      exists m'. rewrite Hrun. split. f_equal. lia. split.
+      intros k0 x Hin. specialize (Hent k0 x Hin). lia. lia.
   Qed.
 
   Lemma run_extra_inv : forall n m acc,
-    0 <= acc -> entries_in m 0 acc -> acc + Z.of_nat n * ibcr <= max_int64 ->
-    entries_in (run_extra ibcr s n m) 0 (acc + Z.of_nat n * ibcr).
+    0 <= acc -> entries_in m 0 acc -> sum_map m <= acc -> acc + Z.of_nat n * ibcr <= max_int64 ->
+    entries_in (run_extra ibcr s n m) 0 (acc + Z.of_nat n * ibcr) /\
+    sum_map (run_extra ibcr s n m) <= acc + Z.of_nat n * ibcr.
   Proof.
-    induction n as [| n IH]; intros m acc Hacc Hm Hb.
-    - cbn [run_extra]. rewrite Z.add_0_r. exact Hm.
+    induction n as [| n IH]; intros m acc Hacc Hm Hsum Hb.
+    - cbn [run_extra]. rewrite Z.add_0_r. auto.
     - cbn [run_extra]. rewrite Nat2Z.inj_succ in *.
       assert (0 <= Z.of_nat n * ibcr) by (apply Z.mul_nonneg_nonneg; lia).
       replace (acc + Z.succ (Z.of_nat n) * ibcr) with ((acc + ibcr) + Z.of_nat n * ibcr) in * by lia.
-      apply IH. lia. apply madd_entries; (assumption || lia). lia.
+      apply IH. lia. apply madd_entries; (assumption || lia).
+      rewrite (madd_sum _ ibcr m acc) by (assumption || lia). lia. lia.
   Qed.
 
   Lemma loops_inv : forall v m0,
     sane_loops ibcr share s v = true -> (forall k x, In (k, x) m0 -> x = 0) ->
     exists m, loops ibcr share s v m0 = IOk m (paid_loops ibcr share s v) /\
               entries_in m 0 (paid_loops ibcr share s v + extra_total ibcr s v) /\
+              sum_map m <= paid_loops ibcr share s v + extra_total ibcr s v /\
+              0 <= extra_total ibcr s v /\
               0 <= paid_loops ibcr share s v <= max_int64.
   Proof.
     intros v m0 Hs Hm0. unfold sane_loops in Hs.
@@ -252,13 +306,19 @@ Section Loops.
     pose proof (sum_arbs_nonneg v _ Ha) as Hna. pose proof (sum_cands_nonneg _ Hc) as Hnc.
     assert (Hex : 0 <= Z.of_nat (n_extra s v) * ibcr) by (apply Z.mul_nonneg_nonneg; lia).
     assert (Hm0' : entries_in m0 0 0) by (intros k x Hin; rewrite (Hm0 k x Hin); lia).
-    destruct (run_arbs_inv v (s_arbs s) m0 0 Ha ltac:(lia) Hm0' ltac:(lia)) as (m1 & R1 & E1).
+    assert (Hs0 : sum_map m0 <= 0).
+    { clear - Hm0. induction m0 as [| [k x] m0 IH]. cbn. lia.
+      cbn [sum_map]. rewrite (Hm0 k x) by (left; reflexivity).
+      assert (sum_map m0 <= 0) by (apply IH; intros k1 x1 H1; apply (Hm0 k1 x1); right; exact H1). lia. }
+    destruct (run_arbs_inv v (s_arbs s) m0 0 Ha ltac:(lia) Hm0' Hs0 ltac:(lia)) as (m1 & R1 & E1 & S1).
     rewrite Z.add_0_l in *.
-    destruct (run_cands_inv (s_cands s) m1 _ Hc Hna E1 ltac:(lia)) as (m2 & R2 & E2).
+    destruct (run_cands_inv (s_cands s) m1 _ Hc Hna E1 S1 ltac:(lia)) as (m2 & R2 & E2 & S2).
     unfold loops. rewrite R1, R2.
-    eexists. split. reflexivity. split.
-    - apply run_extra_inv; (assumption || lia).
-    - lia.
+    assert (Hacc : 0 <= sum_arbs ibcr share s v (s_arbs s) + sum_cands share s (s_cands s)) by lia.
+    destruct (run_extra_inv (n_extra s v) m2 _ Hacc E2 S2 Hb) as (E3 & S3).
+    eexists. split. reflexivity.
+    set (ex := Z.of_nat (n_extra s v) * ibcr) in *. clearbody ex.
+    split; [exact E3 | split; [exact S3 | split; [exact Hex | lia]]].
   Qed.
 End Loops.
 
@@ -298,24 +358,26 @@ Section Main.
     0 <= change /\
     paid ibcr share s v reward = reward - change /\
     0 <= paid ibcr share s v reward /\
-    (forall k x, In (k, x) m -> 0 <= x).
+    (forall k x, In (k, x) m -> 0 <= x) /\
+    sum_map m <= credited ibcr share s v reward /\
+    paid ibcr share s v reward <= credited ibcr share s v reward.
   Proof.
     intros v reward m change Hg Hs. unfold sane in Hs.
     apply andb_prop in Hs. destruct Hs as [Hs Hl]. apply andb_prop in Hs. destruct Hs as [H0 H1].
     apply Z.leb_le in H0. apply Z.leb_le in H1.
     assert (Hne : dist_version ibcr share s v reward <> IErr).
     { intro E. rewrite E in Hg. discriminate. }
-    unfold paid. destruct (is_early s v) eqn:He.
+    unfold paid, credited. destruct (is_early s v) eqn:He.
     - destruct (early_dist v reward He Hne) as [k E]. rewrite E in Hg. unfold guard in Hg.
       assert (Hc : sub64 reward reward = 0).
       { unfold sub64. rewrite Z.sub_diag. reflexivity. }
       rewrite Hc in Hg. cbn in Hg. inversion Hg. subst.
-      repeat split; try lia. intros k0 x [Ein | []]. inversion Ein. lia.
+      repeat split; try lia. intros k0 x [Ein | []]. inversion Ein. lia. cbn [sum_map]. lia.
     - cbn [orb] in Hl.
       destruct (late_dist v reward He Hne) as (m0 & E & Hm0). rewrite E in Hg.
       assert (Hi : 0 <= ibcr).
       { unfold sane_loops in Hl. repeat (apply andb_prop in Hl; destruct Hl as [Hl ?]). apply Z.leb_le in Hl. exact Hl. }
-      destruct (loops_inv ibcr share s Hi v m0 Hl Hm0) as (m' & El & Hent & Hp).
+      destruct (loops_inv ibcr share s Hi v m0 Hl Hm0) as (m' & El & Hent & Hsum & Hex & Hp).
       rewrite El in Hg. unfold guard in Hg.
       assert (Hc : sub64 reward (paid_loops ibcr share s v) = reward - paid_loops ibcr share s v).
       { unfold sub64. apply wrap64_small. unfold in_int64, min_int64, max_int64 in *.
@@ -348,7 +410,23 @@ Lemma no_negative_entry : forall s v reward m change,
   forall k x, In (k, x) m -> 0 <= x.
 Proof.
   intros s v reward m change H Hs. unfold distribute_v in H.
-  destruct (guard_ok _ _ s v reward m change H Hs) as (_ & _ & _ & D). exact D.
+  destruct (guard_ok _ _ s v reward m change H Hs) as (_ & _ & _ & D & _). exact D.
+Qed.
+
+Definition go_credited (s : st) (v : version) (reward : Z) : Z :=
+  credited (go_ibcr reward (count_of s v)) (go_share reward (s_total s)) s v reward.
+
+(* the round map never holds more than paid + the uncounted abnormal-CR credits *)
+Lemma map_sum_relation : forall s v reward m change,
+  distribute_v s v reward = ROk m change -> go_sane s v reward = true ->
+  sum_map m <= go_credited s v reward /\ go_paid s v reward <= go_credited s v reward /\
+  go_credited s v reward - go_paid s v reward =
+    (if is_early s v then 0 else Z.of_nat (n_extra s v) * go_ibcr reward (count_of s v)).
+Proof.
+  intros s v reward m change H Hs. unfold distribute_v in H.
+  destruct (guard_ok _ _ s v reward m change H Hs) as (_ & _ & _ & _ & E & F).
+  repeat split; try assumption.
+  unfold go_credited, go_paid, credited, paid, extra_total. destruct (is_early s v); lia.
 Qed.
 
 (* The guard alone (no side condition): a successful distribution never reports
